@@ -1411,3 +1411,17 @@ package process
 //@   callsite[C04] C04.spawnLoop (*process.Process).transitionLoop#1: arg0 == process && arg1 == re
 //@ contract (*Process).SpawnThenTransitionNP
 //@   callsite[C04] C04.spawnLoopNP (*process.Process).transitionLoopNP#1: arg0 == process && arg1 == re
+
+// C04, dropping: a dropped channel is handed to a droppable forward (a forwarder that discards what it gets and passes
+// the drop on to the channels that message carried); a provider told to drop passes the drop on to each of its free names.
+//@ contract createDroppableForwardFromClient
+//@   ensures[C04] C04.dropFwdShape: result != nil && born(result) >= old(allocCounter()) && is(result.Body, ForwardForm) && ForwardForm(result.Body).to_drop && ForwardForm(result.Body).to_c.IsSelf && ForwardForm(result.Body).from_c == client && len(result.Providers) == 1
+//@   callsite[C04] C04.dropFwdChannel (*process.RuntimeEnvironment).CreateFreshChannel#1: arg0 == re
+//@ contract handleNegativeDropRequest
+//@   callsite[C04] C04.gcPassOn process.createDroppableForwardFromClient#1: arg0 == process && arg1 == re && arg2 == fn
+//@   callsite[C04] C04.gcSpawn (*process.Process).SpawnThenTransition#1: arg0 == p && arg0 != process
+//@   callsite[C04] C04.gcEnds (*process.Process).terminate#1: arg0 == process
+//@ contract (*ForwardForm).Transition
+//@   callsite[C04] C04.fwdDropFirst process.createDroppableForwardFromClient#1: f.to_drop && arg0 == process && arg2 == message.Channel1 && message.Channel1.Channel != nil
+//@   callsite[C04] C04.fwdDropSecond process.createDroppableForwardFromClient#2: f.to_drop && arg0 == process && arg2 == message.Channel2 && message.Channel2.Channel != nil
+//@   callsite[C04] C04.fwdDropEnds (*process.Process).terminate#1: f.to_drop && arg0 == process
